@@ -5,4 +5,6 @@ CONSTANTS c1, c2, d1, d2
 MC_Start == {0} \cup 495..505 \cup 995..999
 MC_StartSmall == {0, 496, 499, 500, 998, 999}
 MC_Ticks == {1000, 2000}
+PermsC == Permutations({c1, c2})
+PermsCD == Permutations({c1, c2}) \cup Permutations({d1, d2})
 ====
